@@ -26,9 +26,21 @@ def run_property(pid: str, tier: str, model=None):
     model = model or RepoModel()
     ctx = Ctx(pid, model, tier)
     mod = importlib.import_module(f"engine.props.{pid}")
-    mod.run(ctx)
-    if tier == "thorough" and hasattr(mod, "run_thorough"):
-        mod.run_thorough(ctx)
+    ctx.crashed = None
+    try:
+        mod.run(ctx)
+        if tier == "thorough":
+            from .sweep import sweep
+
+            ctx.rule("SWEEP", "thorough: R-BASE / R-KIND / R-THREAD / R-ORDER swept over the transitive callee closure of the anchored functions")
+            sweep(ctx)
+            if hasattr(mod, "run_thorough"):
+                mod.run_thorough(ctx)
+    except AnalysisError:
+        raise
+    except Exception:  # noqa: BLE001
+        # an engine exception on an unexpected code shape: keep what was established so far
+        ctx.crashed = traceback.format_exc()
     return ctx
 
 
@@ -48,6 +60,13 @@ def main(argv=None) -> int:
     try:
         ctx = run_property(pid, args.tier)
         floors = load_floors().get(pid, {})
+        if ctx.crashed:
+            new_v = [o for o in ctx.obs if o.status == "violated"]
+            print(ctx.crashed)
+            print(f"ANALYSIS-ERROR property={pid}: engine exception while analysing this tree (the code has a shape the checker does not "
+                  f"understand); {len(new_v)} violated obligation(s) were established before it")
+            rc = finish(ctx, t0, seed, floors, None)
+            return 1 if rc == 1 else 2
         # fail closed: a wholesale loss of analysability is not a pass
         decided = sum(1 for o in ctx.obs if o.status != "unknown")
         if floors and decided < floors.get("min_decided", 0):
